@@ -55,7 +55,7 @@ const tracedEnv = "VERIF_C16_TRACED"
 func run(c *fw.Ctx) {
 	if os.Getenv(tracedEnv) != "" {
 		if err := runInner(c, c.OutDir, true); err != nil {
-			fmt.Fprintln(os.Stderr, "c16 traced process:", err)
+			fmt.Fprintln(os.Stdout, "c16 traced process:", err)
 			os.Exit(2)
 		}
 		return
@@ -230,7 +230,7 @@ func runOuter(c *fw.Ctx) {
 				c.Journal("%s", lines[len(lines)-1])
 			}
 			copyCrash(errPath)
-			fmt.Fprintf(os.Stderr, "c16: traced process did not complete: %v (its output: %s)\n", runErr, errPath)
+			fmt.Fprintf(os.Stdout, "c16: traced process did not complete: %v (its output: %s)\n", runErr, errPath)
 			os.Exit(2)
 		default:
 			traced = true
@@ -240,13 +240,13 @@ func runOuter(c *fw.Ctx) {
 	}
 	if !traced {
 		if err := runInner(c, innerDir, false); err != nil {
-			fmt.Fprintln(os.Stderr, "c16:", err)
+			fmt.Fprintln(os.Stdout, "c16:", err)
 			os.Exit(2)
 		}
 	}
 	hdr, recs, tr, err := readSessions(sessionsPath(innerDir, c.Shard))
 	if err != nil || hdr == nil || tr == nil {
-		fmt.Fprintln(os.Stderr, "c16: cannot read sessions file:", err)
+		fmt.Fprintln(os.Stdout, "c16: cannot read sessions file:", err)
 		os.Exit(2)
 	}
 	var brackets map[int]*Bracket
@@ -254,7 +254,7 @@ func runOuter(c *fw.Ctx) {
 		var lines int
 		brackets, lines, err = parseTrace(tracePath)
 		if err != nil {
-			fmt.Fprintln(os.Stderr, "c16: cannot read strace output:", err)
+			fmt.Fprintln(os.Stdout, "c16: cannot read strace output:", err)
 			os.Exit(2)
 		}
 		c.Obs("strace_lines", int64(lines))
@@ -269,7 +269,7 @@ func runOuter(c *fw.Ctx) {
 	}
 	st := judge(c, hdr, recs, brackets)
 	if traced && st.permitSuccess > 0 && st.permitSeen == 0 {
-		fmt.Fprintf(os.Stderr, "c16: the syscall monitor saw none of %d permitted connects: it is blind\n", st.permitSuccess)
+		fmt.Fprintf(os.Stdout, "c16: the syscall monitor saw none of %d permitted connects: it is blind\n", st.permitSuccess)
 		os.Exit(2)
 	}
 }
@@ -470,7 +470,7 @@ func replay(c *fw.Ctx, raw json.RawMessage) {
 	}
 	if os.Getenv(tracedEnv) != "" {
 		if err := once(true); err != nil {
-			fmt.Fprintln(os.Stderr, "replay:", err)
+			fmt.Fprintln(os.Stdout, "replay:", err)
 			os.Exit(2)
 		}
 		os.Exit(0)
@@ -535,7 +535,7 @@ func copyCrash(path string) {
 	if len(s) > 1<<20 {
 		s = s[:1<<20]
 	}
-	fmt.Fprintln(os.Stderr, s)
+	fmt.Fprintln(os.Stdout, s)
 }
 
 func copyTail(path string, n int) {
@@ -546,5 +546,5 @@ func copyTail(path string, n int) {
 	if len(b) > n {
 		b = b[len(b)-n:]
 	}
-	fmt.Fprintln(os.Stderr, string(b))
+	fmt.Fprintln(os.Stdout, string(b))
 }
